@@ -875,7 +875,8 @@ def parse_host(host):
         host = host[1:-1]
         try:
             inet_pton(socket.AF_INET6, host)
-        except OSError as se:
+        except (OSError, ValueError) as se:
+            # ValueError: embedded null character
             raise URLParseError(f'invalid IPv6 host: {host!r} ({se!r})')
         except UnicodeEncodeError:
             pass  # TODO: this can't be a real host right?
